@@ -28,7 +28,7 @@ ASSUMPTIONS = [
     "centre of mass / momentum are the plain sums over in-box coordinates (what the statement says; a merger across "
     "a periodic boundary conserves that sum although the merged body appears in the middle of the box)",
 ]
-CLASSES = ["detect/mode/direct", "detect/mode/tree", "detect/mode/line", "detect/mode/linetree",
+CLASSES = ["detect_moving/moving", "detect_moving/mode/tree", "detect_moving/mode/linetree", "detect/mode/direct", "detect/mode/tree", "detect/mode/line", "detect/mode/linetree",
            "detect/boundary/none", "detect/boundary/open", "detect/boundary/periodic", "detect/boundary/shear",
            "detect/nt/multi", "detect/nt/ratio10_tree", "detect/nt/image",
            "remove_fixup/keep_sorted=0", "remove_fixup/keep_sorted=1", "remove_fixup/removed>=2",
@@ -442,7 +442,8 @@ def run_detect(case, ctx):
     if len(case["particles"]) < 2:
         ctx.skip("fewer than 2 colliders placed")
         return
-    sim = build_sim(case)
+    moving = bool(case.get("moving"))
+    sim = build_sim(case, "leapfrog" if moving else "none")
     if sim is None:
         ctx.skip("coincident particles or particle on a root-box face")
         return
@@ -469,10 +470,21 @@ def run_detect(case, ctx):
     s1 = R.snapshot(sim)
     # (a tree update may legitimately reorder the array: compare by hash)
     o1 = {int(h): i for i, h in enumerate(s1["hash"])}
-    if len(s1) != len(s0) or set(o1) != set(orig) or any(not same_row(s0[orig[h]], s1[o1[h]]) for h in orig):
-        raise Violation("a step with a resolver that returns 0 changed the particles", N0=len(s0), N1=len(s1))
-    if cfg["mode"] in ("direct", "line") and any(s0["hash"][i] != s1["hash"][i] for i in range(len(s0))):
-        raise Violation("a step without a tree and without removals reordered the particles")
+    if moving:
+        # leapfrog without forces moved everything; the resolver returned 0, so the array after the step is exactly the
+        # state the search looked at (end of step, after the boundary check): evaluate the predicate there
+        if len(o1) != len(s1) or not set(o1) <= set(orig):
+            raise Violation("particles duplicated or appeared during a step", N0=len(s0), N1=len(s1))
+        if cfg["boundary"] != "open" and set(o1) != set(orig):
+            raise Violation("particles lost during a step without removals", N0=len(s0), N1=len(s1))
+        s0 = s1
+        orig = o1
+        ctx.cls("moving")
+    else:
+        if len(s1) != len(s0) or set(o1) != set(orig) or any(not same_row(s0[orig[h]], s1[o1[h]]) for h in orig):
+            raise Violation("a step with a resolver that returns 0 changed the particles", N0=len(s0), N1=len(s1))
+        if cfg["mode"] in ("direct", "line") and any(s0["hash"][i] != s1["hash"][i] for i in range(len(s0))):
+            raise Violation("a step without a tree and without removals reordered the particles")
     must, maybe = R.classify_pairs(s0, cfg, t, cfg["mode"], dtl, colliders=coll_idx(s0))
     G = set()
     n = len(s0)
@@ -1090,7 +1102,10 @@ bounce_case = system(dust_max=150).flatmap(
 
 def subs(tier):
     return [
-        Sub("detect", skipping(run_detect), strategy=system(), quick=2000, thorough=48000, shards_quick=8, shards_thorough=16, timeout_quick=1500),
+        Sub("detect_moving", skipping(run_detect),
+            strategy=system(modes=["tree", "tree", "linetree", "direct", "line"]).map(lambda c: dict(c, moving=True)),
+            quick=1000, thorough=24000, shards_quick=8, shards_thorough=16, timeout_quick=1500),
+        Sub("detect", skipping(run_detect), strategy=system(), quick=1600, thorough=48000, shards_quick=8, shards_thorough=16, timeout_quick=1500),
         Sub("remove_fixup", skipping(run_remove_fixup), strategy=fixup_case, quick=2000, thorough=40000, shards_quick=8,
             shards_thorough=16, timeout_quick=1500),
         Sub("merge_hist", skipping(run_merge_hist), strategy=merge_case, quick=1400, thorough=32000, shards_quick=8,
